@@ -256,7 +256,8 @@ def run_one(tname, pidx, workroot):
         r["params"] = p
         r["claim"] = {"scalarmult_base": "ge25519_scalarmult_base(a) == a * B for all a < 2^255 (radix-16 signed recoding, table look-ups, doublings; abstract multiples)",
                       "scalarmult": "ge25519_scalarmult(a, P) == a * P for all a < 2^255 (table of 1..8 P built by the code, recoding, doublings)",
-                      "base_table": "base[i][j] == (j+1) * 256^i * B for all 256 precomputed entries (big-integer Edwards arithmetic)"}[p["op"]]
+                      "base_table": "base[i][j] == (j+1) * 256^i * B for all 256 precomputed entries (big-integer Edwards arithmetic)",
+                      "mul_l": "ge25519_mul_l(P) == L * P: the fixed addition chain of the main-subgroup test, over abstract multiples"}[p["op"]]
         return r
     if t.get("edwards"):
         from . import edwards
